@@ -15,6 +15,7 @@ ShapesDeep == {<<3, 6>>}
 BigQuick == {<<5, 6>>, <<6, 7>>}
 BigFull == {<<5, 6>>, <<6, 7>>, <<7, 6>>, <<6, 9>>, <<9, 8>>}
 NoShapes == {}
+NaiveBase(A) == Base(A)
 VARIABLE cs
 vars == <<cs>>
 Init == cs = [ph |-> 0]
@@ -31,6 +32,7 @@ PatMat(m, n, x) ==
   IN Mat(m, n, [i \in 0 .. m - 1 |-> (IF x % 5 = 0 /\ i > 0 /\ i % 2 = 1 THEN B.r[i - 1] ELSE B.r[i]) \ z])
 Input == IF cs.pat THEN PatMat(cs.m, cs.n, cs.x) ELSE MatIdx(cs.m, cs.n, cs.x)
 PleOK == cs.ph = 2 => LET A == Input  R == Ple(A) IN PLEOK(A, R.A, R.P, R.Q, R.r, 1)
+PluqNaiveOK == cs.ph = 2 => LET A == Input  R == PluqNaive(A) IN PLEOK(A, R.A, R.P, R.Q, R.r, 0)
 PluqOK == cs.ph = 2 => LET A == Input  R == Pluq(A) IN PLEOK(A, R.A, R.P, R.Q, R.r, 0)
 \* ---- witnesses (each is EXPECTED to be violated: the bounded check is not vacuous) -------------------
 Recurses(A) == ~(FirstZeroRowSem(A) = 0 \/ A.n <= WB \/ WidthOf(A.n) * A.m <= CUTW)
